@@ -76,8 +76,9 @@ func yamlFile(text string) string {
 }
 
 func cleanupYamlFiles() {
-	for _, p := range yamlFiles {
+	for k, p := range yamlFiles {
 		os.Remove(p)
+		delete(yamlFiles, k) // a later world with the same text must get a new file (replays run every case twice)
 	}
 }
 
